@@ -43,6 +43,15 @@ CLAIMED = {
     "C14": ("Proved for every feature AST (strand, any number of segments, codon_start): the ordered position list derived on the GenBank path, for complement(join(..)) and for join(complement(..),..), equals the one derived on the GFF3 path from the equivalent rows. Correspondence: one AST rendered both ways, parsed by the real code; regions compared field by field (name, strand, positions, translation) with the AST-level Coq model; variants run with each rendering on the same alignment must list the same mutations; each output byte for byte against the Coq caller model and against the statement-level oracle.",
             "Coq proof (AST-level position lists) + correspondence check over both renderings",
             "The text parsers (FEATURES/ORIGIN, GFF rows, location strings) are modelled at AST level only and exercised by rendering and re-parsing.", "5 C14"),
+    "C02": ("PARTIAL proof: for every CIGAR over the nine operators, with and without insertion columns, the paired walk yields rows of equal length whose reference row, with its gap columns removed, is exactly the stretch of the reference the CIGAR consumes; for one record the reference row degapped is the reference prefix up to the alignment end. The multi-record re-gapping loop, flattening, right-extension, window cut, wrap and file writer are an executable Coq model compared byte for byte with sam.ToPairAlign (directory output), and the implementation's files are compared with pairs written from the statement (reference row = reference with '-' exactly at the query's insertions; query row = toMultiAlign --pad row with the inserted bases in place).",
+            "Coq proof (partial: induction over CIGAR operators) + correspondence check + statement-level oracle",
+            "PARTIAL: no theorem yet for multi-record blocks (regap / flatten / extension); decided there by the oracle and the differential run. Non-conflicting blocks only (pairwise distinct insertion positions), as the property states.", "5 C02"),
+    "C11": ("Model-level theorem: `sam variants` applies the shared caller to the encoded rows block_to_seq_pair builds, i.e. to the pair `sam toPairAlign` writes (reading that pair back from FASTA unchanged is C16). Correspondence with the real commands: sam variants vs its Coq model byte for byte; and, Go against Go as the statement says, sam variants vs variants --msa on the files written by sam toPairAlign, and vs variants on the sam toMultiAlign --pad rows of insertion-free queries.",
+            "Coq proof (definitional reduction to the shared caller) + three-command correspondence check",
+            "The theorem is short: the substance is in C02/C04/C05/C16 and in the cross-command differential run.", "5 C11"),
+    "C15": ("Proved on the model: toMultiAlign --start/--end is the slice of the untrimmed row (flank rewrite happens first), with --pad it masks outside the window, legacy --trimstart a/--trimend b equals --start a+1/--end b, --wrap only re-breaks (stripping line breaks gives the sequence, lines have width w), the variants window keeps exactly s <= p <= e for the bounds given. Correspondence: groups of runs of sam.ToMultiAlign, sam.ToPairAlign and variants.Variants under each option against the unrestricted run (compared as the statement says) and against the Coq models; through the built binary: exhaustive windows on a small reference with legacy vs new flags, and variants from stdin vs file.",
+            "Coq proof (definitional slices, induction for wrap) + metamorphic correspondence check incl. the binary",
+            "cobra flag parsing trusted; toPairAlign window cut is modelled (trim_pair) and checked metamorphically, its column-of-base characterisation is not yet a theorem.", "5 C15"),
     "C03": ("For every pair of byte files the Coq model of `snps` (reader over the dumped encoding tables, bitwise "
             "test, decoder, row printer) is proved equal to the specification command built from the IUPAC meaning "
             "of the symbols (C03_command_eq_spec), with soundness, completeness, ascending order and "
